@@ -358,3 +358,83 @@ impl Vmm {
 pub fn file_of_eventfd(f: &File) -> RawFd {
     f.as_raw_fd()
 }
+
+// ------------------------------------------------------------------------------------------
+// guest memory helpers (memfd-backed regions)
+// ------------------------------------------------------------------------------------------
+
+use std::os::unix::fs::FileExt;
+use vhost::VhostUserMemoryRegionInfo;
+use vm_memory::{Bytes, GuestAddress, GuestAddressSpace, GuestMemory, GuestMemoryRegion};
+
+pub const PAGE: u64 = 0x1000;
+
+#[derive(Clone, Debug)]
+pub struct GRegion {
+    pub gpa: u64,
+    pub size: u64,
+    pub uva: u64,
+    pub off: u64,
+    /// index into the file pool
+    pub file: usize,
+}
+
+pub struct FilePool {
+    pub files: Vec<(File, u64)>,
+}
+
+impl FilePool {
+    pub fn new() -> Self {
+        FilePool { files: Vec::new() }
+    }
+    pub fn add(&mut self, len: u64) -> usize {
+        self.files.push((crate::fdu::memfd("guestmem", len), len));
+        self.files.len() - 1
+    }
+    pub fn add_unmappable(&mut self) -> usize {
+        self.files.push((crate::fdu::eventfd(true), 0));
+        self.files.len() - 1
+    }
+    pub fn info(&self, r: &GRegion) -> VhostUserMemoryRegionInfo {
+        VhostUserMemoryRegionInfo {
+            guest_phys_addr: r.gpa,
+            memory_size: r.size,
+            userspace_addr: r.uva,
+            mmap_offset: r.off,
+            mmap_handle: self.files[r.file].0.as_raw_fd(),
+        }
+    }
+    pub fn mappable(&self, r: &GRegion) -> bool {
+        let (_, len) = &self.files[r.file];
+        r.off.checked_add(r.size).map(|e| e <= *len).unwrap_or(false) && *len > 0
+    }
+    pub fn write(&self, r: &GRegion, o: u64, data: &[u8]) {
+        self.files[r.file].0.write_all_at(data, r.off + o).expect("pwrite");
+    }
+    pub fn read(&self, r: &GRegion, o: u64, n: usize) -> Vec<u8> {
+        let mut b = vec![0u8; n];
+        self.files[r.file].0.read_exact_at(&mut b, r.off + o).expect("pread");
+        b
+    }
+}
+
+/// (start, len) of every region of the memory the backend currently sees.
+pub fn snapshot_regions<B: Bitmap + 'static>(mem: &GM<B>) -> Vec<(u64, u64)> {
+    let m = mem.memory();
+    let mut v: Vec<(u64, u64)> = m.iter().map(|r| (r.start_addr().0, r.len())).collect();
+    v.sort();
+    v
+}
+
+pub fn gm_read<B: Bitmap + 'static>(mem: &GM<B>, gpa: u64, n: usize) -> Option<Vec<u8>> {
+    let mut b = vec![0u8; n];
+    mem.memory().read_slice(&mut b, GuestAddress(gpa)).ok().map(|_| b)
+}
+
+pub fn gm_write<B: Bitmap + 'static>(mem: &GM<B>, gpa: u64, data: &[u8]) -> bool {
+    mem.memory().write_slice(data, GuestAddress(gpa)).is_ok()
+}
+
+pub fn overlaps(a: &GRegion, b: &GRegion) -> bool {
+    a.gpa < b.gpa.saturating_add(b.size) && b.gpa < a.gpa.saturating_add(a.size)
+}
